@@ -9,7 +9,18 @@ LEVEL = "proof"
 
 def run(ctx):
     quick = ctx.tier == "quick"
-    ctx.rule = ("falsifier (RELEASE profile; debug builds run debug-only degree validation that the property's degenerate traces trip): members of the "
+    ctx.rule = ("falsifier, X stream (coverage round; DEBUG and release profile): the wrapper family XAir/XProver of harness/src/bin/c01.rs around the airfam members "
+                "(same transition functions and assertions, plus: Lagrange-kernel column after the family's auxiliary columns, sequence / periodic assertions on auxiliary "
+                "columns, traces that USE the rows taking part only in exempt transitions in the main and the auxiliary segment) on 8..64 rows: cells "
+                "{no aux, aux narrower / as wide as / wider than main} x {without, with Lagrange column} x {1 exemption, 2 / 3 / 4 exemptions with every exempt step violated, "
+                "2 exemptions unused} x rotating {periodic column, main assertion kind, aux assertion kind, extension 1/2/3, field, hasher}; every declared degree 1..blowup+1 "
+                "(blowup 2,4,8) with/without periodic column x exemptions {1,2,d}; wide segments (64, 8+8, 9+9, 128+125+Lagrange, 1+253+Lagrange); degenerate traces; the plain "
+                "Lagrange family; random members.  Oracle: reference validity (is_valid, x_aux_check) => prove Ok, verify Ok, byte round trip, in both profiles; in the debug "
+                "profile a panic of the prover's debug-only degree validation is tolerated exactly where the reference computation of the actual constraint degrees "
+                "(x_main_exact / x_aux_exact / x_domain_ok: leading coefficients of the trace, periodic and constraint polynomials) predicts it, and the cells count only "
+                "members predicted degree-exact; Trace::validate is additionally called directly with auxiliary segment + Lagrange column on valid / exempt-row-using / "
+                "one-cell-mutated traces (degenerate ones included) and must agree with the reference.  "
+                "Falsifier, main streams (RELEASE profile; debug builds run debug-only degree validation that the property's degenerate traces trip): members of the "
                 "parametric AIR family harness/src/airfam.rs — boundary stream: degenerate valid traces (constant column, all-constant, all-zero, "
                 "low-degree columns a*x^j) x 3 fields x 3 extensions; widths 1,2,8,9,16,17,64,254,255, 254+1/1+254/128+127 aux; every degree 1..blowup+1 "
                 "for blowup 2,4,8(,16) with/without periodic column x exemptions {1,2,d,d+1,blowup,n/2,n/2+1}; single/periodic/sequence assertions with "
@@ -31,7 +42,8 @@ def run(ctx):
         "the Coq closure of Props/C01.v now includes other workers' files (Props/C04, C09, C10, C15, C16 and their Proofs): a change that breaks them breaks this check's coq build obligation",
         "the coin values are an arbitrary function `sem` of the labelled symbolic challenge list of Model/Transcript.v (the same function on both sides): that the real DefaultRandomCoin is such a function (deterministic in the absorbed history and the draw index) is C19_coin_deterministic",
         "the algebraic model (Model/Stark.v part 2): its DEEP composition / composition-column segmentation / verifier recomputation are run against the real composer code (correspondence alg:deep, base fields only); the remaining glue of prove/verify (order of stages, transcript, Merkle, FRI) is tied by reading and by the end-to-end falsifier only",
-        "Lagrange-kernel auxiliary columns / GKR proofs are not in the family and not in the model (covered only by the repository's own test)",
+        "Lagrange-kernel auxiliary columns are not in the Coq model; the falsifier covers them (mini family LagAir and the wrapper family XAir of harness/src/bin/c01.rs, both profiles)",
+        "debug profile: the prover's #[cfg(debug_assertions)] validate_transition_degrees (declared vs actual constraint degrees, smallest evaluation domain) is a diagnostic on the AIR description, compiled out of release builds; a panic of it is NOT counted as a violation when the check's reference computation of the actual degrees predicts it (degenerate columns; and the corners n=8/degree 5 + cycle-2 column/blowup 8, n=8/degree 10/blowup 16, n=16/degree 9 + cycle-2 column/blowup 16, where a degree-exact trace has quotient degree exactly half the evaluation domain); the same members must be proved in release; every other debug outcome, in particular a panic of Trace::validate on a valid trace, is a violation",
         "extension fields: the algebraic theorems hold for every FOps with FLaws (hence for the extensions once C08 provides their FLaws); E::from(B) embeddings are not modelled separately",
     ]
     # findings proposed by this check that are not yet merged into known_findings.json
@@ -97,6 +109,52 @@ def run(ctx):
         missing = [k for k in need if st.get(k, 0) == 0]
         ctx.ob("falsifier-strata-covered", tail and not missing, "strata never exercised: " + ",".join(missing))
         ctx.notes.setdefault("falsifier", {})["release"] = {"budget": budget, "failures": nfail, "wall_s": round(dt, 1)}
+    # ---- coverage round: the X stream in the DEBUG profile (the prover's #[cfg(debug_assertions)] self-checks: Trace::validate with auxiliary segment and
+    # Lagrange column, validate_transition_degrees with auxiliary constraints) and, for the same members, in the release profile
+    hbd = ctx.build_harness("c01", "debug")
+    xstrata = {}
+    for prof, binp in (("debug", hbd), ("release", hb)):
+        if not binp:
+            continue
+        nx = (1500 if quick else 20000) * (3 if ctx.broken() else 1)
+        reps = 6 if quick else 24
+        rc, out, dt = vcheck.sh([binp, "xfalsify", str(ctx.seed), str(nx), str(reps)], timeout=600 if quick else 4000)
+        nfail, tail, prof_ok = 0, False, False
+        for line in out.split("\n"):
+            if line.startswith("{"):
+                try:
+                    f = json.loads(line)
+                except ValueError:
+                    continue
+                f["profile"] = prof
+                f["input"] = json.dumps(f["input"], separators=(",", ":"))
+                f.pop("unshrunk", None)
+                nfail += 1
+                ctx.add_failure(f)
+            elif line.startswith("evaluations="):
+                tail = True
+                ctx.evaluations += int(line.split()[0].split("=")[1])
+            elif line.startswith("xstrata:"):
+                xstrata[prof] = {k: int(v) for k, v in (kv.rsplit("=", 1) for kv in line[len("xstrata: "):].split(" ") if "=" in kv)}
+            elif line.startswith("profile="):
+                prof_ok = line.split()[0] == "profile=" + prof   # the binary itself says whether debug assertions are compiled in
+        ctx.ob("falsifier-ran:debug" if prof == "debug" else "falsifier-ran:release:x-stream", rc == 0 and tail and prof_ok, out[-300:])
+        ctx.notes.setdefault("falsifier", {})[prof + ":x-stream"] = {"budget": nx, "failures": nfail, "wall_s": round(dt, 1)}
+    # every cell profile x aux shape x Lagrange column x exemptions-used must have been PROVED AND VERIFIED at least once (debug: by a member the
+    # reference computation calls degree-exact), and the direct Trace::validate cross-check must have seen valid and invalid traces with aux + Lagrange
+    need = []
+    for prof in ("debug", "release"):
+        for shape, lags in (("none", (0,)), ("lt", (0, 1)), ("eq", (0, 1)), ("gt", (0, 1))):
+            for lag in lags:
+                for ex in ("e1", "e2:used", "e3:used"):
+                    need.append((prof, f"cell:aux-{shape}:lag{lag}:{ex}"))
+        need += [(prof, k) for k in ("x-plain-lagrange-kernel", "x-degenerate:zero-trace-aux", "x-degenerate:all-hold-e3", "x-width:9+9",
+                                     "x-crosscheck:valid:aux1:lag1:e>=2", "x-crosscheck:invalid:aux1:lag1:e>=2", "x-crosscheck:valid:aux1:lag0:e>=2",
+                                     "x-crosscheck:invalid:aux1:lag0:e>=2", "x-crosscheck:valid:aux0:lag0:e>=2")]
+    missing = [f"{p}/{k}" for p, k in need if xstrata.get(p, {}).get(k, 0) == 0]
+    ctx.ob("falsifier-cells-covered", bool(xstrata) and not missing, "cells never proved and verified: " + ",".join(missing[:12]))
+    ctx.notes["x_stream_cells"] = {p: {k: v for k, v in st.items() if k.startswith("cell:")} for p, st in xstrata.items()}
+    ctx.notes["x_stream_other"] = {p: {k: v for k, v in st.items() if not k.startswith("cell:") and not k.startswith("x:")} for p, st in xstrata.items()}
     ctx.notes["stages"] = {
         "theorems (all fields/sizes/coins)": ["root_factor", "vanish_divisible", "domain_vanishing (x^n-1 = prod(x-g^i))", "quotient_is_poly",
                                               "air_quotient_exists", "ood_equation_holds", "deep_quotients_are_polys", "deep_degree_le",
